@@ -404,3 +404,19 @@ Proof.
   cbn zeta. split; [apply sr_sort_perm|]. vm_compute sr_sort. unfold cmp_sorted.
   repeat (constructor; [|repeat (constructor; [vm_compute; discriminate|]); constructor]). constructor.
 Qed.
+
+(* ---- composite statements in the form Props.v exports *)
+Theorem sorted_records_entry_points ops :
+  zone_sorted (strip (sr_run ops)) /\
+  forall o t, has_type (strip (sr_run ops)) o t <-> has_type (strip (sr_input ops)) o t.
+Proof. split; [apply sr_run_sorted|apply sr_run_types]. Qed.
+
+Theorem sorted_records_sorted_and_complete l :
+  zone_sorted (strip (sorted_records l)) /\
+  forall o x, has_type (strip (sorted_records l)) o x <-> has_type (strip l) o x.
+Proof. split; [apply sorted_records_sorted|apply sorted_records_types]. Qed.
+
+Theorem sorted_records_class l :
+  StronglySorted (fun a b => fst a <= fst b) (cr_sort l) /\
+  (forall k, Forall (fun x => fst x = k) l -> map snd (sorted_records_c l) = sorted_records (map snd l)).
+Proof. split; [exact (cr_sort_class_sorted l)|intros k; exact (sorted_records_one_class k l)]. Qed.
